@@ -219,7 +219,7 @@ def source_mutants(pid):
         os.makedirs(sc + '/ev')
         for m in sel:
             path = os.path.join(sc, 'repo', m['file'])
-            bp = os.path.join(VERIF, 'selftest', 'refactors', m['base'] + '.diff') if m.get('base') else None
+            bp = (os.path.join(VERIF, 'selftest', m['base'] + '.diff') if '/' in m['base'] else os.path.join(VERIF, 'selftest', 'refactors', m['base'] + '.diff')) if m.get('base') else None
             if bp:
                 # the mutant breaks independently REFACTORED code: apply the behaviour-preserving refactoring first
                 pr = subprocess.run(['patch', '-p1', '-s', '-i', bp], cwd=sc + '/repo', stdin=subprocess.DEVNULL, stdout=subprocess.PIPE, stderr=subprocess.STDOUT)
